@@ -602,12 +602,21 @@ def extra(ctx, known):
 
 
 MANIFEST = {
-    "text": "Theorems (Coq, no axioms) about an executable Gallina model of rlib_io::Writer (state = pending buffer + sink; "
-            "reserve/flush/write_bytes, string chunking, the backwards digit loop into a BASE_10_LEN buffer, '-' + unsigned_abs, "
-            "Vec/tuple separators, out!/outln!, debug flush after every write, drop) parametric in BUF_SIZE and the build "
-            "flavour. The model is tied to the code on every run: scripted writes through the public API into sinks that accept "
-            "1..k bytes per call and return Interrupted, on a debug and a release executor; Coq checks model = received bytes "
-            "and received bytes = independent rendering (Z.to_int) for every case.",
+    "text": "Theorems (Coq, no axioms, 9 pinned) about an executable Gallina model of rlib_io::Writer (state = pending "
+            "buffer + sink; reserve/flush/write_bytes, string chunking, the backwards digit loop into a BASE_10_LEN "
+            "buffer, '-' + unsigned_abs, Vec/tuple separators, out!/outln!, debug flush after every write, drop) "
+            "parametric in BUF_SIZE and the build flavour: c09_invariant (after ANY script of well-formed writes, both "
+            "flavours, every BUF_SIZE >= 39: sink ++ pending = concatenation of all renderings in call order, |pending| "
+            "<= BUF_SIZE, no panic), c09_flush_delivers (after flush and after drop the sink holds exactly that "
+            "concatenation; at every explicit flush everything written before had arrived), c09_piece_any_capacity / "
+            "c09_string_any_capacity (any capacity >= 1, any fill level: chunking loses nothing), "
+            "c09_oversized_piece_panics, c09_render_unsigned / c09_render_signed (every value of every width incl. MIN: "
+            "canonical decimal numeral, unsigned_abs exact, the digit loop stays inside the BASE_10_LEN buffer), "
+            "c09_base10len (the base_10_len! loop yields the digit count of MAX for all six widths), c09_round_trip (the "
+            "text of any integer vector parses back to the values with a reader that accumulates digits as Reader does). "
+            "The model is tied to the code on every run: scripted writes through the public API into sinks that accept "
+            "1..k bytes per call and return Interrupted, on a debug and a release executor; Coq checks model = received "
+            "bytes and received bytes = independent rendering (Z.to_int) for every case.",
     "level_note": "Trusted: Coq kernel + vm_compute; executor and case printer; write_all/chunks/unsigned_abs of std as "
                   "oracles with their documented contracts; BUF_SIZE is exercised at the crate's value only; the "
                   "correspondence is sampled.",
